@@ -177,17 +177,114 @@ def jaddr(a):
     return ["null"]
 
 
+BOUNDARY_MACS = ["00", "01", "fe", "ff", "000000000000", "ffffffffffff", "0000", "ffff", "0001",
+                 "000000", "ffffff", "00000000000000", "ffffffffffffff"]
+ADDR_REFUSALS = []      # refusals of LEGAL addresses by the tree under test, drained into ctx.fail
+
+
+class AddrRefused(Exception):
+    """no construction form of a legal station address is accepted"""
+
+
+def station_forms(net, mac):
+    """every form the library offers to build the address of station `mac` (octets, length >= 1) on
+    the local network (net None) or on network `net`"""
+    from bacpypes.pdu import Address, LocalStation, RemoteStation
+    forms = []
+    if net is None:
+        forms.append(("octets", lambda: LocalStation(mac)))
+        if len(mac) == 1:
+            forms.append(("int", lambda: LocalStation(mac[0])))
+        forms.append(("string", lambda: Address("0x" + mac.hex())))
+    else:
+        forms.append(("octets", lambda: RemoteStation(net, mac)))
+        if len(mac) == 1:
+            forms.append(("int", lambda: RemoteStation(net, mac[0])))
+        forms.append(("string", lambda: Address("%d:0x%s" % (net, mac.hex()))))
+    return forms
+
+
+def mk_station(net, mac_hex):
+    """a station address, built in the first form the tree under test accepts; every refusal of
+    a form is recorded (a legal MAC / network number must be accepted in EVERY form)"""
+    mac = bytes.fromhex(mac_hex)
+    for form, fn in station_forms(net, mac):
+        try:
+            a = fn()
+        except Exception as e:
+            ADDR_REFUSALS.append({"form": form, "net": net, "mac": mac_hex, "e": type(e).__name__})
+            continue
+        if bytes(a.addrAddr) != mac or a.addrNet != net:
+            ADDR_REFUSALS.append({"form": form, "net": net, "mac": mac_hex, "e": "wrong-address:%s" % (a,)})
+            continue
+        return a
+    raise AddrRefused("%r:%s" % (net, mac_hex))
+
+
+def network_refused(net):
+    from bacpypes.pdu import RemoteBroadcast
+    try:
+        RemoteBroadcast(net)
+        return False
+    except Exception:
+        return True
+
+
+def drain_refusals(ctx):
+    """recorded refusals -> property failures, each with the address construction as failing input"""
+    seen = ctx.__dict__.setdefault("_c06_refusals", set())
+    while ADDR_REFUSALS:
+        r = ADDR_REFUSALS.pop()
+        key = (r["form"], r["net"], r["mac"])
+        if key in seen:
+            continue
+        seen.add(key)
+        case = {"kind": "address", "form": r["form"], "net": r["net"], "mac": r["mac"]}
+        if r["net"] is not None and 1 <= r["net"] <= 65534 and network_refused(r["net"]):
+            ctx.fail("legal-network-refused", case,
+                     "legal network number %d refused by the address classes (%s) -> routed delivery to net %d "
+                     "impossible" % (r["net"], r["e"], r["net"]), clause="exactly", net=r["net"])
+        else:
+            ctx.fail("legal-station-refused", case,
+                     "legal station address %s (network %r) refused in its %s form (%s) -> routed traffic of "
+                     "that station is lost where the stack builds its address this way"
+                     % (r["mac"], r["net"], r["form"], r["e"]), clause="exactly", mac=r["mac"], form=r["form"])
+
+
+def probe_addresses(ctx, nets, macs):
+    """every boundary MAC x network number in every construction form"""
+    from bacpypes.pdu import RemoteBroadcast, Address
+    for mac_hex in macs:
+        mac = bytes.fromhex(mac_hex)
+        for net in [None] + list(nets):
+            for form, fn in station_forms(net, mac):
+                try:
+                    a = fn()
+                    if bytes(a.addrAddr) != mac or a.addrNet != net:
+                        raise ValueError("wrong-address:%s" % (a,))
+                except Exception as e:
+                    ADDR_REFUSALS.append({"form": form, "net": net, "mac": mac_hex, "e": type(e).__name__})
+                ctx.count("address-forms", (form, net is None, len(mac), mac_hex[:2]))
+    for net in nets:
+        for form, fn in (("class", lambda: RemoteBroadcast(net)), ("string", lambda: Address("%d:*" % net))):
+            try:
+                fn()
+            except Exception as e:
+                ADDR_REFUSALS.append({"form": "rb-" + form, "net": net, "mac": "", "e": type(e).__name__})
+    drain_refusals(ctx)
+
+
 def mkaddr(j):
     from bacpypes.pdu import Address, LocalStation, LocalBroadcast, RemoteStation, RemoteBroadcast, GlobalBroadcast
     if j is None:
         return None
     k = j[0]
     if k == "ls":
-        return LocalStation(bytes.fromhex(j[1]))
+        return mk_station(None, j[1])
     if k == "lb":
         return LocalBroadcast()
     if k == "rs":
-        return RemoteStation(j[1], bytes.fromhex(j[2]))
+        return mk_station(j[1], j[2])
     if k == "rb":
         return RemoteBroadcast(j[1])
     if k == "gb":
@@ -301,7 +398,7 @@ class RealNode:
         self.in_event = False
         for a in cfg["adapters"]:
             shim = K["Shim"](self, a["aid"])
-            addr = LocalStation(bytes.fromhex(a["addr"])) if a["addr"] is not None else None
+            addr = mk_station(None, a["addr"]) if a["addr"] is not None else None
             before = set(map(id, self.nsap.adapters.values()))
             self.nsap.bind(shim, a["net"], addr)
             ad = [x for x in self.nsap.adapters.values() if id(x) not in before][0]
@@ -309,7 +406,7 @@ class RealNode:
             self.shims.append(shim)
             self.adapters.append(ad)
         for snet, dnet, mac in cfg.get("cache", []):
-            self.nsap.update_router_references(snet, LocalStation(bytes.fromhex(mac)), [dnet])
+            self.nsap.update_router_references(snet, mk_station(None, mac), [dnet])
 
     def reset_request(self):
         """the driver request that creates the same node"""
@@ -358,8 +455,8 @@ class RealNode:
     # events driven by the harness -----------------------------------
     def recv(self, aid, src, dst, raw):
         from bacpypes.pdu import LocalStation, LocalBroadcast
-        pdu = classes()["PDU"](bytes.fromhex(raw), source=LocalStation(bytes.fromhex(src)),
-                               destination=LocalBroadcast() if dst is None else LocalStation(bytes.fromhex(dst)))
+        pdu = classes()["PDU"](bytes.fromhex(raw), source=mk_station(None, src),
+                               destination=LocalBroadcast() if dst is None else mk_station(None, dst))
         self.shims[aid].confirmation(pdu)
 
     def send(self, dest, er, prio, data):
@@ -399,7 +496,12 @@ def refused(ctx, case, outs):
         if o.get("k") == "refused":
             d = o["dest"]
             net = d[1] if d[0] in ("rs", "rb") else None
-            if net is not None and 1 <= net <= 65534:
+            drain_refusals(ctx)
+            if d[0] in ("ls", "rs") and not (net is not None and network_refused(net)):
+                ctx.fail("legal-station-refused", case,
+                         "no form of the legal station address %r is accepted (%s) -> nothing can be sent to it"
+                         % (d, o["e"]), clause="exactly")
+            elif net is not None and 1 <= net <= 65534:
                 ctx.fail("legal-network-refused", case,
                          "legal network number %d refused by the address classes (%s) -> routed delivery to net %d "
                          "impossible" % (net, o["e"], net), clause="exactly", net=net)
@@ -571,7 +673,9 @@ def gen_node_cfg(rng):
     ads = []
     for i in range(k):
         net = nets[i]
-        addr = rng.choice(MACS1[:6]).hex() if rng.random() < 0.9 else bytes(rng.getrandbits(8) for _ in range(6)).hex()
+        r0 = rng.random()
+        addr = (rng.choice(BOUNDARY_MACS) if r0 < 0.2 else rng.choice(MACS1[:6]).hex() if r0 < 0.92
+                else bytes(rng.getrandbits(8) for _ in range(6)).hex())
         r = rng.random()
         if k == 1 and r < 0.35:
             net, addr = None, None            # nsap.bind(server)
@@ -613,6 +717,8 @@ def gen_frame(rng, cfg, known):
         own = [x["addr"] for x in ads if x["addr"] is not None]
         if r < 0.4 and own:
             return rng.choice(own)
+        if r < 0.55:
+            return rng.choice(BOUNDARY_MACS)
         if r < 0.9:
             return rng.choice(MACS1[:8]).hex()
         return bytes(rng.getrandbits(8) for _ in range(rng.choice([2, 6]))).hex()
@@ -777,7 +883,12 @@ def shard_lockstep(ctx, spec):
     nodes, tags = [], []
     for i in range(spec["n"]):
         sc = gen_lockstep(ctx, rng, known)
-        node = run_lockstep_scenario(ctx, vt, sc)
+        try:
+            node = run_lockstep_scenario(ctx, vt, sc)
+        except AddrRefused:
+            drain_refusals(ctx)          # a legal address nobody can build: reported, scenario skipped
+            continue
+        drain_refusals(ctx)
         # carry the scenario so that a disagreement is replayable
         for j, (ev, outs, dig) in enumerate(node.log):
             pass
@@ -836,8 +947,16 @@ def gen_tree(rng, nn=None, shape="random"):
     used = {n: set() for n in nets}
 
     def newmac(net):
+        # boundary station addresses are routine: MAC 0, 1, 254, 255, all-zero / all-ones of 2, 3, 6
+        # and 7 octets - for stations and for the routers' own ports
         while True:
-            m = bytes([rng.randrange(1, 250)]) if rng.random() < 0.85 else bytes(rng.getrandbits(8) for _ in range(6))
+            r = rng.random()
+            if r < 0.3:
+                m = bytes.fromhex(rng.choice(BOUNDARY_MACS))
+            elif r < 0.85:
+                m = bytes([rng.randrange(0, 256)])
+            else:
+                m = bytes(rng.getrandbits(8) for _ in range(rng.choice([2, 3, 6, 6, 7])))
             if m not in used[net]:
                 used[net].add(m)
                 return m.hex()
@@ -884,7 +1003,7 @@ def gen_ring(rng):
 
     def newmac(net):
         while True:
-            m = bytes([rng.randrange(1, 250)])
+            m = bytes.fromhex(rng.choice(BOUNDARY_MACS)) if rng.random() < 0.3 else bytes([rng.randrange(0, 256)])
             if m not in used[net]:
                 used[net].add(m)
                 return m.hex()
@@ -957,7 +1076,7 @@ class World:
         K = classes()
         node = RealNode(cfg)
         for shim, (lan, mac) in zip(node.shims, ports):
-            vnode = Node(LocalStation(bytes.fromhex(mac)), self.lans[lan])
+            vnode = Node(mk_station(None, mac), self.lans[lan])
             K["bind"](shim, vnode)
             shim.below = True
         self.nodes.append(node)
@@ -1618,26 +1737,36 @@ def tables_from_list(lst):
     return out
 
 
+def guarded(ctx, fn, *args):
+    """run one scenario; a legal address the tree under test refuses in every form aborts the
+    scenario (the refusal itself is the reported failure), never the check"""
+    try:
+        fn(*args)
+    except AddrRefused:
+        pass
+    drain_refusals(ctx)
+
+
 def shard_e2e(ctx, spec):
     from .vt import VT
     vt = VT.install()
     rng = ctx.sub_rng("e2e/%d" % spec["shard"])
     for i in range(spec["trees"]):
         sc = gen_tree_scenario(ctx, rng, exhaustive=spec.get("exhaustive", False), nsends=spec.get("nsends", 4))
-        run_tree_scenario(ctx, vt, sc)
+        guarded(ctx, run_tree_scenario, ctx, vt, sc)
         if i == 0 and spec["shard"] == 0:
             ctx.sample({"stream": "e2e", "spec": sc["spec"], "cache_mode": sc["cache_mode"], "sends": sc["sends"][:2]})
     for i in range(spec.get("histories", 0)):
         sc = gen_history_scenario(ctx, rng)
-        run_tree_scenario(ctx, vt, sc)
+        guarded(ctx, run_tree_scenario, ctx, vt, sc)
         if i == 0 and spec["shard"] == 0:
             ctx.sample({"stream": "e2e-history", "spec": sc["spec"], "sends": sc["sends"]})
     for i in range(spec.get("longbursts", 0)):
         sc = gen_longburst_scenario(ctx, rng, spec["shard"] + 16 * i)
-        run_longburst_scenario(ctx, vt, sc)
+        guarded(ctx, run_longburst_scenario, ctx, vt, sc)
     for i in range(spec["cycles"]):
         sc = gen_cycle_scenario(ctx, rng)
-        run_cycle_scenario(ctx, vt, sc)
+        guarded(ctx, run_cycle_scenario, ctx, vt, sc)
         if i == 0 and spec["shard"] == 0:
             ctx.sample({"stream": "e2e-cycle", "spec": sc["spec"], "send": sc["send"]})
     flush_model(ctx)
@@ -1648,6 +1777,15 @@ def shard_e2e(ctx, spec):
 
 
 def run_case(ctx, vt, case):
+    try:
+        run_case_inner(ctx, vt, case)
+    except AddrRefused:
+        pass
+    drain_refusals(ctx)
+    flush_model(ctx)
+
+
+def run_case_inner(ctx, vt, case):
     kind = case.get("kind")
     if kind == "lockstep":
         node = run_lockstep_scenario(ctx, vt, case["scenario"])
@@ -1663,6 +1801,22 @@ def run_case(ctx, vt, case):
         elif case.get("burst") and "send" in case:
             sc["sends"] = [sc["sends"][0], sc["sends"][0]]     # the burst is the odd-numbered send
         run_tree_scenario(ctx, vt, sc)
+    elif kind == "address":
+        mac = bytes.fromhex(case["mac"])
+        if case["form"].startswith("rb-"):
+            if network_refused(case["net"]):
+                ADDR_REFUSALS.append({"form": case["form"], "net": case["net"], "mac": "", "e": "refused"})
+        else:
+            for form, fn in station_forms(case["net"], mac):
+                if form == case["form"]:
+                    try:
+                        a = fn()
+                        if bytes(a.addrAddr) != mac or a.addrNet != case["net"]:
+                            raise ValueError("wrong address")
+                    except Exception as e:
+                        ADDR_REFUSALS.append({"form": form, "net": case["net"], "mac": case["mac"], "e": type(e).__name__})
+        drain_refusals(ctx)
+        ctx.count("replay-address", case["form"])
     elif kind == "e2e-burst":
         run_longburst_scenario(ctx, vt, {"spec": fix_spec(case["spec"]), "items": case["items"]})
     elif kind == "cycle":
@@ -1708,6 +1862,7 @@ def preflight(ctx):
         rep = core.Driver("drv_c06").ask([{"op": "known"}])[0]
         if rep["types"] != live_known_types():
             ctx.disagree("npdu_types", {"op": "known"}, live_known_types(), rep["types"])
+    probe_addresses(ctx, BOUNDARY_NETS + [3], BOUNDARY_MACS + ["2a", "0a0b0c"])
 
 
 def run(ctx):
